@@ -274,6 +274,8 @@ func run1(raw json.RawMessage, skipOut *bool) driver.Result {
 		res := runBytes(in, fail)
 		res.Direct = direct
 		return res
+	case "refs":
+		return runRefs(in)
 	case "casex":
 		res := runCaseShift(in, fail)
 		res.Direct = direct
@@ -465,6 +467,8 @@ func gen(r *coqfmt.Rng, n int, tier string) []json.RawMessage {
 	tg := textgen.New(r)
 	for i := 0; i < n; i++ {
 		switch x := r.Intn(1000) / 10; {
+		case r.Intn(250) == 0:
+			add(genRefs(r))
 		case r.Intn(125) == 0: // child processes are expensive: ~0.8 %
 			add(input{K: "envp", Cfg: r.Intn(nEnvCfgs), Env: genEnvp(r)})
 		case x >= 94:
@@ -536,10 +540,15 @@ func corpus() []json.RawMessage {
 	extraCorpus(add)
 	docCorpus(add)
 	caseShiftCorpus(add)
+	refsCorpus(add)
 	return out
 }
 
 func main() {
+	if len(os.Args) >= 2 && os.Args[1] == "refchild" {
+		refChildMain(os.Args[2:])
+		return
+	}
 	if len(os.Args) == 3 && os.Args[1] == "envchild" {
 		cfg, _ := strconv.Atoi(os.Args[2])
 		childMain(cfg)
